@@ -17,6 +17,7 @@ import (
 	"github.com/couchbase/nitro"
 	"github.com/couchbase/nitro/skiplist"
 	"nvharness/internal/guardalloc"
+	"nvharness/internal/sched"
 )
 
 // engine mvcc: one goroutine drives a real Nitro instance (see PROTOCOL.md).
@@ -459,6 +460,67 @@ func (e *mvccEngine) step(toks []string) string {
 			}
 		}
 		return fmt.Sprintf("err=%v part=%s items=%s", err != nil, part, list(all))
+	case "visitgap":
+		// Visitor while a same-epoch Delete of key `delkey` (writer 0) is parked between its mark and its unlink
+		// (skiplist yield point DEL_SEARCH): the structure the Visitor takes its pivots from holds a marked node
+		_, s := snap(1)
+		shards, ok := natArg(toks, "shards")
+		conc, ok2 := natArg(toks, "conc")
+		dk, ok3 := natArg(toks, "delkey")
+		if s == nil || !ok || !ok2 || !ok3 || shards < 1 || conc < 1 {
+			return "bad-op"
+		}
+		parked := make(chan struct{})
+		resume := make(chan struct{})
+		var once sync.Once
+		store := unsafe.Pointer(e.db.VerifStore())
+		prev := skiplist.VerifHook
+		var delGoid int64
+		skiplist.VerifHook = func(point int, obj unsafe.Pointer) {
+			if prev != nil {
+				prev(point, obj)
+			}
+			if slPoint[point] == "DEL_SEARCH" && obj == store && sched.Goid() == atomic.LoadInt64(&delGoid) {
+				once.Do(func() {
+					close(parked)
+					<-resume
+				})
+			}
+		}
+		delDone := make(chan bool, 1)
+		go func() {
+			atomic.StoreInt64(&delGoid, sched.Goid())
+			delDone <- e.writers[0].Delete(e.item(dk, 0))
+		}()
+		var delRes bool
+		gap := false
+		select {
+		case <-parked:
+			gap = true
+		case delRes = <-delDone: // not a same-epoch delete (or key absent): no gap, the delete is simply done
+		case <-time.After(10 * time.Second):
+			skiplist.VerifHook = prev
+			return "hang"
+		}
+		// GetRangeSplitItems restarts its walk for as long as it meets a marked node, so the Visitor can only get
+		// past its pivot computation once the delete goes on: let it spin on the marked node for a moment first
+		vch := make(chan string, 1)
+		go func() { vch <- e.step(append([]string{"visit"}, toks[1:4]...)) }()
+		if gap {
+			time.Sleep(2 * time.Millisecond)
+			close(resume)
+		}
+		visitLine := <-vch
+		if gap {
+			select {
+			case delRes = <-delDone:
+			case <-time.After(10 * time.Second):
+				skiplist.VerifHook = prev
+				return "hang"
+			}
+		}
+		skiplist.VerifHook = prev
+		return fmt.Sprintf("del=%v %s", delRes, visitLine)
 	case "gcwait":
 		if !e.gcQuiesce() {
 			return "gc-not-quiescent"
